@@ -25,6 +25,7 @@ type loadX struct {
 	Opsets []struct {
 		Domain  string `json:"domain"`
 		Version int64  `json:"version"`
+		W       int64  `json:"w"` // the version is W*2^31 + Version (TLC integers are 32 bits wide)
 	} `json:"opsets"`
 	Inits []struct {
 		Name string `json:"name"`
@@ -96,7 +97,7 @@ func execLoadCase(c *Case) []ModeResult {
 	}
 	mp := &onnx.ModelProto{IrVersion: 7}
 	for _, o := range x.Opsets {
-		mp.OpsetImport = append(mp.OpsetImport, &onnx.OperatorSetIdProto{Domain: o.Domain, Version: o.Version})
+		mp.OpsetImport = append(mp.OpsetImport, &onnx.OperatorSetIdProto{Domain: o.Domain, Version: o.W<<31 + o.Version})
 	}
 	if !x.Nograph {
 		g := &onnx.GraphProto{Name: "g"}
